@@ -1,5 +1,6 @@
 import Lean.Data.Json
 import PydjinniModel.Sys.Pkg
+import PydjinniModel.Sys.PkgHistory
 /-! Driver handlers for property C20: `c20.run` (packaging model on one configuration and fault) and
     `c20.spec` (the specification predicate on an implementation observation). -/
 namespace Pydjinni.Drv.C20
@@ -102,7 +103,11 @@ def runOp (req : Json) : Except String Json := do
   let phase ← req.getObjValAs? String "phase"
   let files ← pathsOr req "files"
   let orc ← getOracle req
-  let w0 : World := { cwd := cwd, files := files, dirs := [], flags := [], calls := [] }
+  -- earlier package runs on the same tree (`prior`: their configurations, succeeding tools), each a call of its own
+  let priors : List Cfg ← (match req.getObjVal? "prior" with
+    | .ok (Json.arr a) => a.toList.mapM (getCfg cwd)
+    | _ => pure [])
+  let w0 : World := afterRuns (priors.map (fun c => (c, allOk))) { cwd := cwd, files := files, dirs := [], flags := [], calls := [] }
   let (r, w, pre) ← (match phase with
     | "package" => pure (let (r, w) := run orc (packageOp cfg) w0; (r, w, Res.ok))
     | "publish" => do
